@@ -68,7 +68,7 @@ CLAIMED["C10"] = dict(
     note="Assumed: bindnode schema strictness (unknown, missing or wrongly typed payload fields are rejected by AssignNode against the embedded .ipldsch) — a dependency behaviour contracts cannot decide here; "
          "the reflection-based slow path of literal.Any (anyAssemble) is abstracted; policy.FromIPLD is used through a trusted contract (its shape is C14).",
     design="DESIGN.md §3 C10")
-for pid in ["C07","C09","C19"]:
+for pid in ["C07","C09"]:
     NOT_APPLICABLE[pid] = "contracts for this property are not registered yet in this tree (work in progress; see DESIGN.md §6 staging)"
 
 STREAM_NOTE = ("Assumed (trusted, stubs/io.spec): the io.Reader / io.Writer protocol; delivered/written and the fault counters failed/wfailed are ghost history variables of the "
@@ -150,3 +150,15 @@ CLAIMED["C16"] = dict(
          "PKIX of a libp2p ECDSA / RSA key parses back to a key of that kind, UnmarshalCompressed may return (nil, nil)). Not decided (honest gap): equality of the extracted key with the original and injectivity of key serialisation "
          "(they live in the cryptographic libraries: the dispatch through the unmarshaller table is an opaque function value here), canonical encodings of RSA keys.",
     design="DESIGN.md §3 C16, §7")
+
+CLAIMED["C19"] = dict(
+    text="Proof over an uninterpreted secretbox (a data-flow theorem about the real bodies): validateKey accepts exactly the keys that are present, 32 bytes long and not all zero (loop invariant); "
+         "EncryptWithKey returns, for an accepted key only, a 24-byte nonce followed by box(plaintext, nonce, key), where the nonce is exactly what the system random source delivered during this call; "
+         "DecryptStringWithKey returns a value only if the key is accepted and the bytes after the first 24 authenticate under (those 24 bytes, key), and then returns the opened message; "
+         "Meta.AddEncrypted stores exactly that ciphertext under the given name (strings and byte slices only) and GetEncryptedBytes / GetEncryptedString return only opened messages of the stored bytes. "
+         "The lemma roundtrip (from the two contracts and secretbox's correctness axiom) gives: what was added encrypted is returned unchanged with the same key.",
+    note="Assumed (trusted, stubs/crypto.spec): correctness of secretbox (open(seal(m, n, k), n, k) = m) and io.ReadFull / crypto/rand as a stream. "
+         "Not decidable by contracts (stated, not claimed): confidentiality (the plaintext does not appear in the ciphertext), authenticity against modification or a wrong key (that Open fails on them), "
+         "and that two draws from the random source differ — these are the cryptographic content of secretbox and of the random source; what is proved is that the code hands them exactly the right inputs "
+         "(a fresh draw per encryption as nonce, the unmodified stored nonce on reading, the authentication result is honoured).",
+    design="DESIGN.md §3 C19, §7")
